@@ -28,7 +28,7 @@ TRUSTED = [
     "C20 emulation (harness/props/c20_emul.py): alias import of the snapshot's psutil with sys.platform/os.name patched during the import only, stub native modules built from the C sources' PyMethodDef tables, scripted os/time/glob/subprocess proxies; the native layers themselves (C for other OSes) are NOT executed",
     "C20: CPython's errno → OSError-subclass map (ESRCH→ProcessLookupError, ENOENT→FileNotFoundError, EPERM/EACCES→PermissionError), `OSError.winerror` set by the stub as Windows would",
     "C20: the order of the native one-shot records is the one written in the C sources' Py_BuildValue comments (cross-checked textually by the translator, theorem C20_slot_maps_match_native)",
-    "C20: 'pid state' is what the module's own probe sees after the faulted call (one-shot status slot on BSD/macOS; kill(pid,0) / /proc/<pid>/psinfo on Solaris/AIX); only the probe primitives follow it",
+    "C20: 'pid state' is what the module's own probe sees after the faulted call (one-shot status slot on BSD/macOS — 'zombie' is swept over every native status code the identity's PROC_STATUSES maps to STATUS_ZOMBIE, each stub constant a distinct value; kill(pid,0) / /proc/<pid>/psinfo on Solaris/AIX); only the probe primitives follow it",
 ]
 ASSUMPTIONS = [
     "single-fault sweep: exactly one native call of the method raises (sticky only for the Windows ERROR_PARTIAL_COPY retry loop); two-fault sequences: a second, later call raises after the method went on; records hold a distinct value in every slot",
@@ -36,8 +36,8 @@ ASSUMPTIONS = [
     "Python-level os.path.exists/islink/isfile/os.access never raise and are not faulted; subprocess-based helpers (pfiles, procfiles, swap -l, lsdev, entstat) are outside the model",
 ]
 MANIFEST = {
-    "level_text": "Machine-checked Lean 4 proofs over a model of the five non-Linux platform modules and the front end's platform-conditional post-processing: C20_error_contract (for every platform module, every errno in {ESRCH, ENOENT, EPERM, EACCES, EIO, EINVAL}, every winerror, every pid and pid state, the decorator built from the translator's except-clause table produces exactly the cell of the contract table), instantiated for every decorated method of the generated per-platform method lists (C20_error_contract_methods), C20_all_methods_wrapped (every undecorated method justified one by one, helpers only reachable from decorated methods), C20_inner_handlers_transcribed, C20_method_faults_within_spec (every native call of every method × error × pid state: outcome within the specification's allowed set, by decide over the generated traces; full strength for the configuration with the two Windows repairs fixes/C20-win-ppid-wrap and fixes/C20-win-memory-maps-wrap) and C20_method_faults_within_spec_current (the same for the tree as the translator reads it: a call site is excluded only while its repair is absent from the source — then it is a known finding with proved counterexamples; C20_method_faults_full_when_repaired), C20_two_faults_within_spec (two-fault sequences: for every generated row of first faults after which a method goes on — alternative path after an inner handler, or re-run by the partial-copy retry — every later native call × second error × pid state is within the specification; any first error), C20_two_faults_first_ends, C20_slot_maps_match_native, C20_slots_match, C20_all_record_reads_named (every read of a native one-shot record on any path is a named-slot read), C20_fallback_slots_match (the slot reads on except-handler paths are exactly the documented fall-backs), C20_ntuple_types, C20_win_pmem_layout (decide over generated tables), C20_api_names (documented ⊆ exposed per platform), C20_mac_padding, C20_broadcast_takes_effect (post-processing takes effect; counterexample for the pre-fix front end), C20_front_branches_classified (every platform-conditional branch inside a function or class of the front end is on a classified list) with C20_front_ppid / _name / _username / _pid_exists / _affinity_all_cpus / _disk_io_kwargs for the ones that transform a value. Tie: translator (except clauses, decorators, slot maps, feeds, record reads, fall-back reads, single- and two-fault traces, front-end branches, C comments, docs) + a differential run of the REAL platform modules and front end under platform emulation over a scripted native layer (full single-fault sweep; two-fault sequences: sampled at the quick tier, the whole domain at the thorough tier).",
-    "level_note": "Trusted: Lean kernel + {propext, Classical.choice, Quot.sound}; the translator; the emulation layer (stub natives, scripted os); CPython's errno→exception map. Not executed: the native C layers of the other OSes. Partial: pid-state semantics is the module's own probe; two-fault sequences start from first faults after which the method still returns (a second fault inside a decorator's own probe is not generated); the two Windows repairs are proposed patches, on the unrepaired tree the two call sites stay known findings; front-end branches _get_ident (Windows fast create_time), __eq__ (Open/NetBSD zombies), _send_signal (OpenBSD) and send_signal (non-POSIX) are listed but not modelled.",
+    "level_text": "Machine-checked Lean 4 proofs over a model of the five non-Linux platform modules and the front end's platform-conditional post-processing: C20_error_contract (for every platform module, every errno in {ESRCH, ENOENT, EPERM, EACCES, EIO, EINVAL}, every winerror, every pid and pid state, the decorator built from the translator's except-clause table produces exactly the cell of the contract table), instantiated for every decorated method of the generated per-platform method lists (C20_error_contract_methods), C20_all_methods_wrapped (every undecorated method justified one by one, helpers only reachable from decorated methods), C20_inner_handlers_transcribed, C20_method_faults_within_spec_code (every native call of every method × error × pid state: outcome within the specification's allowed set, by decide over the generated traces; full strength, no call site excluded, for the code as it is — the two Windows repairs 61843a1 / 4481769 have landed, obligations cfg_win_ppid_wrapped and cfg_win_maps_loop_guarded; counterexamples kept for the unrepaired configuration), C20_zombie_codes_documented / C20_zombie_probe_sees_documented_codes / C20_error_contract_status_codes (the contract in terms of the native status code of the probe record: is_zombie's comparison, a translator fact, says zombie for exactly the codes the platform documents — OpenBSD SDEAD and SZOMB), C20_two_faults_within_spec (two-fault sequences: for every generated row of first faults after which a method goes on — alternative path after an inner handler, or re-run by the partial-copy retry — every later native call × second error × pid state is within the specification; any first error), C20_two_faults_first_ends, C20_slot_maps_match_native, C20_slots_match, C20_all_record_reads_named (every read of a native one-shot record on any path is a named-slot read), C20_fallback_slots_match (the slot reads on except-handler paths are exactly the documented fall-backs), C20_ntuple_types, C20_win_pmem_layout (decide over generated tables), C20_api_names (documented ⊆ exposed per platform), C20_mac_padding, C20_broadcast_takes_effect (post-processing takes effect; counterexample for the pre-fix front end), C20_front_branches_classified (every platform-conditional branch inside a function or class of the front end is on a classified list) with C20_front_ppid / _name / _username / _pid_exists / _affinity_all_cpus / _disk_io_kwargs for the ones that transform a value. Tie: translator (except clauses, decorators, slot maps, feeds, record reads, fall-back reads, single- and two-fault traces, front-end branches, C comments, docs) + a differential run of the REAL platform modules and front end under platform emulation over a scripted native layer (full single-fault sweep; two-fault sequences: sampled at the quick tier, the whole domain at the thorough tier).",
+    "level_note": "Trusted: Lean kernel + {propext, Classical.choice, Quot.sound}; the translator; the emulation layer (stub natives, scripted os); CPython's errno→exception map. Not executed: the native C layers of the other OSes. Partial: pid-state semantics is the module's own probe; two-fault sequences start from first faults after which the method still returns (a second fault inside a decorator's own probe is not generated); no C20 finding is open; front-end branches _get_ident (Windows fast create_time), __eq__ (Open/NetBSD zombies), _send_signal (OpenBSD) and send_signal (non-POSIX) are listed but not modelled.",
     "technique": "Lean 4 case analysis + decide over translator-generated tables; platform emulation with scripted native layer for the differential correspondence",
     "design_ref": "DESIGN.md §5 C20",
 }
@@ -148,6 +148,30 @@ def facts(snap, F):
               "retry_error_partial_copy: times")
     F.try_add("winBroadcastAssigned", "Bool", lambda: lean_bool(T.broadcast_assigned(tree("__init__.py"))),
               "net_if_addrs(): is the result of nt._replace(broadcast=...) assigned back to nt?")
+
+    def status_tab(ident):
+        return T.status_tables(emus[ident], tree(T.FAMILY_FILE[T.FAMILY[ident]]))
+    F.try_add("statusCodes", "List (String × List String)",
+              lambda: "[" + ", ".join(T.lpair(lean_str(i), T.lstr_list(status_tab(i)[0])) for i in E.IDENTS) + "]",
+              "per platform identity: the native process-status codes (cext constants) that are keys of the module's live PROC_STATUSES")
+    F.try_add("zombieCodes", "List (String × List String)",
+              lambda: "[" + ", ".join(T.lpair(lean_str(i), T.lstr_list(status_tab(i)[1])) for i in E.IDENTS) + "]",
+              "per platform identity: the native status codes PROC_STATUSES maps to STATUS_ZOMBIE")
+
+    def lean_zprobe():
+        rows = [T.lpair(lean_str("bsd"), lean_str(T.zombie_probe(tree("_psbsd.py"), "proc_oneshot_info"))),
+                T.lpair(lean_str("osx"), lean_str(T.zombie_probe(tree("_psosx.py"), "proc_kinfo_oneshot")))]
+        for fam in ("sunos", "aix", "windows"):
+            # no is_zombie(): the decorators of these modules never read a status code
+            try:
+                extract.find_def(tree(T.FAMILY_FILE[fam]), "is_zombie")
+            except NotRecognised:
+                rows.append(T.lpair(lean_str(fam), lean_str("none")))
+                continue
+            raise NotRecognised("%s now defines is_zombie()" % fam)
+        return "[" + ", ".join(rows) + "]"
+    F.try_add("zombieProbe", "List (String × String)", lean_zprobe,
+              "per module: the comparison is_zombie(pid) makes on the status slot of the probe record: procStatuses (PROC_STATUSES.get(st) == _common.STATUS_ZOMBIE) | eq:<NAME> (st == cext.<NAME>) | none (module has no is_zombie)")
 
     F.try_add("frontBranches", "List (String × String)",
               lambda: lean_list(T.front_branches(tree("__init__.py")), lambda q: T.lpair(lean_str(q[0]), lean_str(q[1]))),
@@ -408,6 +432,20 @@ def model_pid0(ident, pid, state, pid0):
     return pid0
 
 
+def world_states(emu):
+    """(pid state, native status code): 'zombie' ranges over EVERY native code the module's own PROC_STATUSES maps to
+    STATUS_ZOMBIE under this identity (OpenBSD: SDEAD and SZOMB; the stub gives each constant a distinct value)"""
+    zc = getattr(emu, "_c20_zombie_codes", None)
+    if zc is None:
+        tree = ast.parse(open(os.path.join(emu.pkg_dir, T.FAMILY_FILE[T.FAMILY[emu.ident]]), encoding="utf-8").read())
+        try:
+            zc = T.status_tables(emu, tree)[1]
+        except NotRecognised:
+            zc = []
+        emu._c20_zombie_codes = zc
+    return [("gone", None)] + [("zombie", c) for c in (zc or [None])] + [("alive", None)]
+
+
 def fault_cases(emu, tier, rng=None):
     """the exhaustive single-fault domain of one platform identity"""
     pids = PIDS if tier == "quick" else PIDS + [1, 2, 4]
@@ -420,13 +458,13 @@ def fault_cases(emu, tier, rng=None):
                 for ename, eno in ERRNOS:
                     wins = [None] + WIN_CODES if emu.windows else [None]
                     for win in wins:
-                        for state in ("gone", "zombie", "alive"):
+                        for state, zcode in world_states(emu):
                             for pid0 in ((True, False) if pid == 0 else (True,)):
                                 stickies = (False, True) if (emu.windows and win == E.ERROR_PARTIAL_COPY) else (False,)
                                 for sticky in stickies:
                                     yield {"kind": "fault", "ident": emu.ident, "meth": meth, "pid": pid, "k": k,
                                            "call": call, "errno": ename, "winerror": win, "state": state,
-                                           "pid0": pid0, "sticky": sticky}
+                                           "zcode": zcode, "pid0": pid0, "sticky": sticky}
 
 
 def run_fault(emu, c, with_trace=False):
@@ -435,7 +473,8 @@ def run_fault(emu, c, with_trace=False):
     if c.get("kind") == "fault2":
         kw = {"fault2_at": c["k2"], "err2": (dict(ERRNOS)[c["errno2"]], c["winerror2"])}
     obs, tr = emu.run(c["meth"], pid=c["pid"], fault_at=c["k"], err=(eno, c["winerror"]), state=c["state"],
-                      pid0_listed=c["pid0"], sticky=c.get("sticky", False), name=CACHED_NAME, ppid=CACHED_PPID, **kw)
+                      pid0_listed=c["pid0"], sticky=c.get("sticky", False), name=CACHED_NAME, ppid=CACHED_PPID,
+                      zcode=c.get("zcode"), **kw)
     out = impl_outcome(obs)
     out["sleeps"] = obs.get("sleeps", 0)
     if len(tr) <= c["k"] or tr[c["k"]] != c["call"]:
@@ -464,8 +503,9 @@ def fault_line(c):
     if c.get("kind") == "fault2":
         return {"op": "fault2", "plat": c["ident"], "meth": c["meth"], "call": c["call"], "errno": c["errno"],
                 "winerror": c["winerror"], "call2": c["call2"], "errno2": c["errno2"], "winerror2": c["winerror2"],
-                "state": c["state"], "pid": c["pid"], "pid0": model_pid0(c["ident"], c["pid"], c["state"], c["pid0"])}
-    return {"op": "fault", "plat": c["ident"], "meth": c["meth"], "call": c["call"], "errno": c["errno"],
+                "state": c["state"], "zcode": c.get("zcode"), "pid": c["pid"],
+                "pid0": model_pid0(c["ident"], c["pid"], c["state"], c["pid0"])}
+    return {"op": "fault", "zcode": c.get("zcode"), "plat": c["ident"], "meth": c["meth"], "call": c["call"], "errno": c["errno"],
             "winerror": c["winerror"], "state": c["state"], "pid": c["pid"],
             "pid0": model_pid0(c["ident"], c["pid"], c["state"], c["pid0"]), "persistent": c["sticky"]}
 
@@ -491,7 +531,8 @@ def judge_fault(c, impl, m, res):
                 c["k2"], c["call2"], c["errno2"], c["winerror2"])
         res.disagree("spec", c, impl, mo, {"cell": m["spec"]["cell"], "allowed": allowed},
                      note="%s.Process(%d).%s(): native call #%d %s raises %s(winerror=%s)%s, pid then %s: outcome outside the specification"
-                     % (c["ident"], c["pid"], c["meth"], c["k"], c["call"], c["errno"], c["winerror"], second, c["state"]))
+                     % (c["ident"], c["pid"], c["meth"], c["k"], c["call"], c["errno"], c["winerror"], second,
+                   c["state"] + ("" if not c.get("zcode") else " (status slot = %s)" % c["zcode"])))
         return True
     if c.get("sticky") and impl.get("k") == "ad" and m["model"]["sleeps"] > 0 and impl.get("sleeps") != m["spec"]["retries"]:
         res.disagree("spec", c, impl, m["model"], {"retries": m["spec"]["retries"]},
@@ -953,7 +994,8 @@ def correspond(ctx, res):
     emus = _emus(ctx.snap)
     res.rule = ("exhaustive single-fault sweep: platform identity × public Process method × pid ∈ {42, 0} × each native "
                 "call of the no-fault trace × errno ∈ {ESRCH, ENOENT, EPERM, EACCES, EIO, EINVAL} (× winerror ∈ {None, 0, 5, "
-                "1314, 299, 87} on Windows) × pid state ∈ {gone, zombie, alive} (× pid 0 listed or not); two-fault "
+                "1314, 299, 87} on Windows) × pid state ∈ {gone, zombie — once per native status code the identity's "
+                "PROC_STATUSES maps to STATUS_ZOMBIE —, alive} (× pid 0 listed or not); two-fault "
                 "sequences: every single-fault case after which the method still returned × every later native call of "
                 "that run × every swept error (quick: all of Solaris + a sample of 1200 of Windows; thorough: all); plus tuple "
                 "contents of every method incl. every fall-back path, the front end's platform-conditional branches "
